@@ -224,7 +224,7 @@ PROPS["C05"] = dict(
 
 
 PROPS["C17"] = dict(
-    units=["fonts", "tdf_load", "tdf_save", "dcs_font", "xbin_load", "bin_load", "idf_load"],
+    units=["fonts", "tdf_load", "tdf_save", "dcs_font", "xbin_load", "bin_load", "idf_load", "xbin_save"],
     kani_quick=["std_spec_le_bytes"],
     trusted_base=COMMON_TRUST + [
         "S7: char obeys the hash-table key model (vstd assumes the same for the integer key types); std HashMap through vstd's specification",
